@@ -69,7 +69,7 @@ DupOf(c) == CHOOSE j \in Ids : c = "dup-" \o j
 IsDup(c) == \E j \in Ids : c = "dup-" \o j
 Out0 == [a |-> "Init", id |-> "", cls |-> "", passed |-> 0]
 
-Responses == {"result", "error", "errorBare"}      \* iq types that are responses; "set" is not
+Responses == {"result", "error", "errorBare"}      \* iq types that are responses; "set" and "get" are not
 
 (* sender class of a reply from f to a request addressed to t *)
 Cls(t, f) ==
